@@ -55,6 +55,15 @@ def run(ctx):
                                                   "server_wide_state_is_written_by_its_constructors_only no longer checks; two requests on different files "
                                                   "running this function (or this function and a reader of the field) race; the Go race detector reports it under load",
                                            "call_site": fn, "field": ty + "." + fld})
+                i2 = txt0.find("def mutexAssumed")
+                line2 = txt0[i2:].split("\n", 1)[0] if i2 >= 0 else ""
+                for mname, exported, outside in re.findall(r'\("([^"]+)", (true|false), (\d+)\)', line2):
+                    if (exported == "true" or outside != "0") and mname != "mu_cache_Cache_PrintCache":
+                        ctx.add_violation("mutex-assumed-by-reachable-method:" + mname[3:],
+                                          "method %s touches fields guarded by its struct's mutex without taking it, and it can be called from outside the struct's own methods "
+                                          "(exported: %s, calls from plain functions of the package: %s): the access and the accesses under the mutex are unordered" % (mname[3:].replace("_", ".", 2), exported, outside),
+                                          {"how": "table Gen/Skeleton.mutexAssumed regenerated from the source (translate skeleton); theorem methods_assumed_to_hold_the_mutex_are_internal "
+                                                  "no longer checks; the guarded fields are listed in mutexGuardedFields; under load the Go race detector reports the pair", "call_site": mname[3:]})
                 import C03
                 for name, calls in C03.failing_slot_functions(ctx)[:3]:
                     ctx.add_violation("slot-without-lock:" + name,
